@@ -39,7 +39,7 @@ Definition f64_weight_ok (x : spec_float) : bool :=
 Definition eval14f (alg : N) (wbits : list N) (p0 : list N) (impl : impl_res) (cnt : N) (after : list N) : verdict :=
   let ws := map (fun b => f64_of_bits b) wbits in
   let best := (alg =? 0)%N in
-  let r := if best then vn_bestW F64arith (vb_fuel (length ws)) ws p0 else vn_firstW F64arith ws p0 in
+  let r := if best then vn_bestW F64arith true (vb_fuel (length ws)) ws p0 else vn_firstW F64arith ws p0 in
   let untouched := list_eqb N.eqb after p0 in
   let corr :=
     match r, impl with
@@ -81,8 +81,8 @@ Definition eval14i (c_alg : N) (c_flt : bool) (ws : list Z) (p0 : list N) (c_imp
   let rW :=
     if c_flt then
       let wf := map (fun z => f64_of_Z z) ws in
-      if best then vn_bestW F64arith (vb_fuel (length ws)) wf p0 else vn_firstW F64arith wf p0
-    else if best then vn_bestW Zarith (vb_fuel (length ws)) ws p0 else vn_firstW Zarith ws p0 in
+      if best then vn_bestW F64arith true (vb_fuel (length ws)) wf p0 else vn_firstW F64arith wf p0
+    else if best then vn_bestW Zarith true (vb_fuel (length ws)) ws p0 else vn_firstW Zarith ws p0 in
   let untouched := list_eqb N.eqb c_after p0 in
   let corr :=
     match r, c_impl with
